@@ -175,8 +175,14 @@ def check(ctx: Ctx) -> None:
             ob.violation(fcl, fcl.node, "_controll is not `send(event); return receive()`")
         # the control channel travels over the proxy channel first
         pi = repo.func("gateway_io.ProxyIO.__init__")
-        s1 = [c for c in repo.calls_in(pi) if callee_attr(c) == "send" and unparse(c.args[0]) == "self.controlchan"]
-        if len(s1) != 1:
+        # (on value terms: the channel sent over the proxy channel is the one kept as self.controlchan, whatever local carries it)
+        from ..terms import evaluator as _evpi
+        okc = False
+        for (_pp, stp) in _evpi(repo, pi).run(limit=2000):
+            kept = [e.value for e in stp.events if e.kind == "assign" and e.target == "self.controlchan"]
+            sent = [e.args[0] for e in stp.events if e.kind == "call" and e.attr == "send" and e.args]
+            okc = bool(kept) and len(sent) == 1 and sent[0] in (kept[-1], ("sym", "self.controlchan"))
+        if not okc:
             ob.violation(pi, pi.node, "ProxyIO does not hand its control channel to the forwarder")
 
     with ctx.obligation("C16.b", "io-interface", nontrivial=False) as ob:
